@@ -131,6 +131,8 @@ theorem parBody_no_fuel (cfg : ChunkSigned.Cfg) (K : ChunkSigned.State → Bytes
   | chunk size sig off =>
     simp only
     split
+    · simp
+    split
     · exact finalChunk_no_fuel cfg _
     · rename_i hz
       split
